@@ -2,7 +2,7 @@
    Statements only; model = Model/Passes.v (assemble_items), tied to asm.assemble by the pipeline correspondence
    (per-item blobs observed at resolve_blobs; real output = concatenation of those blobs is checked there). *)
 From Coq Require Import ZArith List String.
-From BB Require Import Base.PyBase Model.Items Model.Passes Proofs.Layout Proofs.LayoutInst Proofs.Pipeline Proofs.Examples Gen.Sizes Proofs.SizesTable.
+From BB Require Import Base.PyBase Model.Items Model.Passes Proofs.Layout Proofs.LayoutInst Proofs.Pipeline Proofs.Examples Gen.Sizes Proofs.SizesTable Gen.PassTable Proofs.PassOrder.
 Import ListNotations.
 Open Scope Z_scope.
 
@@ -52,3 +52,15 @@ Theorem C09_size_from_source : forall it,
             | Some k => SizesTable.size_by_kind k it | None => None end.
 Proof. exact SizesTable.size_table. Qed.
 Print Assumptions C09_size_from_source.
+
+(* "in order": the composition of passes the layout theorems are about is the composition the SOURCE performs -- assemble_items
+   equals the interpretation of the pass order regenerated on every run from asm.assemble (names, arguments, `if compress:`
+   guards; Gen/PassTable.v), so moving a pass (e.g. resolve_aligns in front of the second transform_compressible) breaks this
+   proof obligation *)
+Theorem C09_pass_order_from_source : forall its consts0 labels0 compress,
+  assemble_items its consts0 labels0 compress =
+  obind (PassOrder.run Gen.PassTable.pass_order compress
+           {| PassOrder.ps_items := its; PassOrder.ps_consts := consts0; PassOrder.ps_labels := labels0; PassOrder.ps_chunks := None |})
+        PassOrder.finish.
+Proof. exact PassOrder.assemble_is_pass_order. Qed.
+Print Assumptions C09_pass_order_from_source.
